@@ -97,7 +97,7 @@ theorem strRope_inv (L : KeyLaws o) (sh : Show K V) (h : Hash K V) (I : Inv o h)
 theorem jsonFields_live (sh : Show K V) (h : Hash K V) (ko : List K)
     (hl : ∀ k ∈ ko, (get? o h k).isSome = true) :
     jsonFields o sh h ko = some ((ko.filterMap (entry (get? o h))).flatMap
-      (fun e => ["\"" ++ sh.sexp e.1 ++ "\":" ++ sh.val e.2, ", "])) := by
+      (fun e => [sh.jsonKey e.1 ++ ":" ++ sh.val e.2, ", "])) := by
   induction ko with
   | nil => rfl
   | cons a r ih =>
@@ -119,22 +119,22 @@ theorem jsonRope_inv (sh : Show K V) (h : Hash K V) (I : Inv o h) :
       | nil => exact absurd habs hne
       | cons a r => rfl
     have hjf : jsonFields o sh h h.keyOrder = some ((abs o h).flatMap
-        (fun e => ["\"" ++ sh.sexp e.1 ++ "\":" ++ sh.val e.2, ", "])) :=
+        (fun e => [sh.jsonKey e.1 ++ ":" ++ sh.val e.2, ", "])) :=
       jsonFields_live sh h h.keyOrder I.koLive
     simp only [h0, if_false, hjf, hemp, Bool.false_eq_true]
     show some _ = _
     congr 1
-    have hko : h.keyOrder.flatMap (fun k => ["\"" ++ sh.sexp k ++ "\"", ", "]) =
-        (abs o h).flatMap (fun e => ["\"" ++ sh.sexp e.1 ++ "\"", ", "]) := by
+    have hko : h.keyOrder.flatMap (fun k => [sh.jsonKey k, ", "]) =
+        (abs o h).flatMap (fun e => [sh.jsonKey e.1, ", "]) := by
       conv => lhs; rw [← abs_keys h I]
       rw [List.flatMap_map]
     rw [hko]
-    have e1 := sep_shift (fun e : K × V => "\"" ++ sh.sexp e.1 ++ "\":" ++ sh.val e.2) ", "
+    have e1 := sep_shift (fun e : K × V => sh.jsonKey e.1 ++ ":" ++ sh.val e.2) ", "
       "{\"Atype\":\"hash\"" (abs o h)
-    have e2 := dropLast_sep (fun e : K × V => "\"" ++ sh.sexp e.1 ++ "\"") ", " "\"zKeyOrder\":[" (abs o h) hne
+    have e2 := dropLast_sep (fun e : K × V => sh.jsonKey e.1) ", " "\"zKeyOrder\":[" (abs o h) hne
     simp only [List.cons_append, List.nil_append] at e1 ⊢
-    generalize hA : (abs o h).flatMap (fun e => ["\"" ++ sh.sexp e.1 ++ "\":" ++ sh.val e.2, ", "]) = A at e1 ⊢
-    generalize hB : (abs o h).flatMap (fun e => ["\"" ++ sh.sexp e.1 ++ "\"", ", "]) = B at e2 ⊢
+    generalize hA : (abs o h).flatMap (fun e => [sh.jsonKey e.1 ++ ":" ++ sh.val e.2, ", "]) = A at e1 ⊢
+    generalize hB : (abs o h).flatMap (fun e => [sh.jsonKey e.1, ", "]) = B at e2 ⊢
     have step : "{\"Atype\":\"hash\"" :: ", " :: (A ++ ["\"zKeyOrder\":["] ++ B) =
         ("{\"Atype\":\"hash\"" :: ", " :: A) ++ ("\"zKeyOrder\":[" :: B) := by simp
     rw [step, e1, List.dropLast_append_of_ne_nil (by simp), e2]
